@@ -20,6 +20,8 @@ ExtraFor(kty) ==
     [] kty = "EC" -> { <<>>, <<<<"n", "AQAB">>, <<"e", "AQAB">>, <<"k", "AAAA">>>>, <<<<"x5t", "abc">>, <<"p", "AQAB">>>> }
     [] kty = "OKP" -> { <<>>, <<<<"y", "AAAA">>, <<"n", "AQAB">>, <<"k", "AAAA">>>>, <<<<"zz", "1">>>> }
     [] kty = "oct" -> { <<>>, <<<<"n", "AQAB">>, <<"e", "AQAB">>, <<"d", "AQAB">>, <<"crv", "P-256">>, <<"x", "AAAA">>>>, <<<<"zz", "1">>>> }
+\* unknown members of every JSON type ("#json:<text>" stands for that JSON value): WebCrypto's "ext": true, a numeric "nbf", ...
+TypedExtras == <<<<"ext", "#json:true">>, <<"nbf", "#json:1493763266">>, <<"nul", "#json:null">>, <<"obj", "#json:{\"a\":[1]}">>, <<"f", "#json:false">>, <<"r", "#json:1.5">>>>
 Meta == { [alg |-> a, kid |-> i, use |-> u, ops |-> o] :
             a \in {"@match", NONE}, i \in {NONE, "key-1"}, u \in {NONE, "sig"}, o \in {<<>>, <<"sign", "verify">>} }
         \cup { [alg |-> a, kid |-> "k", use |-> u, ops |-> o] :
@@ -34,8 +36,10 @@ QuickBase(b) == ~Quick \/ AsymBase[b].kty # "RSA" \/ AsymBase[b].bits \in {512, 
 AsymMeta == UNION { { X(WithMeta(AsymKey(b, p, NONE, NONE), m, MatchAlg(b)), E0 @@ [extra |-> <<>>]) : p \in {0, 1}, m \in Meta }
                     : b \in { x \in Bases : QuickBase(x) } }
 AsymEnc == UNION { { X(AsymKey(b, p, NONE, NONE), e @@ [extra |-> x]) : p \in {0, 1}, e \in Enc, x \in ExtraFor(AsymBase[b].kty) } : b \in Bases }
+           \cup { X(AsymKey(b, p, NONE, "kx"), E0 @@ [extra |-> TypedExtras]) : b \in {"rsa2048a", "p256a", "p384a", "ed25519a", "ed448a", "k256a"}, p \in {0, 1} }
 OctMeta == { X(WithMeta(OctKey(n, "a", NONE, NONE), m, "HS256"), E0 @@ [extra |-> <<>>]) : n \in {32, 64}, m \in Meta }
 OctEnc == { X(OctKey(n, v, NONE, NONE), E0 @@ [extra |-> x]) : n \in OctLens, v \in {"a", "b"}, x \in ExtraFor("oct") }
+          \cup { X(OctKey(48, "a", "HS384", "kx"), E0 @@ [extra |-> TypedExtras]) }
           \cup { X(OctKey(n, v, NONE, NONE), E0 @@ [extra |-> <<>>]) : n \in {32, 33, 64},
                   v \in {"a.end0a", "a.end00", "a.end20", "a.beg00", "a.begff", "a.end3d"} }
 Plain(k) == k.kid = NONE /\ k.use = NONE /\ k.ops = <<>> /\ k.alg = NONE
